@@ -1875,6 +1875,7 @@ class SpaceUpdater(SharedSpaceOperations):
                 {node},
                 nx.descendants(self._graph, node)):
             self._check_member_conflict(desc)
+            self._check_relative_refs(desc)
 
         self._instructions.append(
             Instruction(self._update_derived_space, (node,)))
@@ -1884,6 +1885,45 @@ class SpaceUpdater(SharedSpaceOperations):
 
         self._instructions.execute()
         self._update_manager()
+
+    def _check_relative_refs(self, node):
+        """Check the 'relative' references the space of ``node`` derives
+
+        Raise an error if, under the inheritance held in the working graph,
+        the space would derive a reference in 'relative' mode
+        that it cannot re-bind, before anything is derived.
+        """
+        seen = set()
+        for sname in self._graph.get_mro(node):
+            if "space" not in self._graph.nodes[sname]:
+                continue    # The space being created has no members yet
+            space = self._graph.to_space(sname)
+            for name, ref in space.own_refs.items():
+                if not ref.is_defined() or name in seen:
+                    continue
+                seen.add(name)
+                if (sname == node or ref.refmode != "relative"
+                        or not ref.has_interface()):
+                    continue
+                subvalue = self._graph.get_relative(
+                    node, sname, ref.interface._impl.idstr)
+                if not subvalue or not self._will_exist(subvalue):
+                    raise ValueError(
+                        "Relative reference %s.%s out of scope" %
+                        (self._graph.to_space(node).get_fullname(), name)
+                    )
+
+    def _will_exist(self, name):
+        """True if ``name`` is an object or a cells yet to be derived"""
+        if self.model.get_impl_from_name(name) is not None:
+            return True
+        parent, _, last = name.rpartition(".")
+        if parent in self._graph:
+            for b in self._graph.get_mro(parent):
+                if ("space" in self._graph.nodes[b]
+                        and last in self._graph.to_space(b).cells):
+                    return True
+        return False
 
     def _check_member_conflict(self, node):
         """Check name conflict between child spaces, cells and refs
